@@ -2239,6 +2239,13 @@ impl Kanata {
             && self.dynamic_macro_replay_state.is_none()
             && self.caps_word.is_none()
             && self.vkeys_pending_release.is_empty()
+            // A key that kanata holds at the OS but that no layout state produces any more (its
+            // state was removed during the last tick, e.g. by a macro cancellation) is released
+            // by the next tick, so that tick must still run.
+            && self
+                .prev_keys
+                .iter()
+                .all(|pk| self.layout.b().keycodes().any(|kc| kc == *pk))
             && !self.layout.b().states.iter().any(|s| {
                 matches!(s, State::SeqCustomPending(_) | State::SeqCustomActive(_))
                     || (pressed_keys_means_not_idle && matches!(s, State::NormalKey { .. }))
